@@ -22,9 +22,12 @@ import (
 	"encoding/json"
 	"flag"
 	"fmt"
+	"os"
+	"runtime/pprof"
 	"sort"
 	"strings"
 	"sync"
+	"sync/atomic"
 	"time"
 
 	"github.com/gnolang/gno/tm2/pkg/bech32"
@@ -261,7 +264,15 @@ func main() {
 		fmt.Println("RESULT " + string(b))
 		return
 	}
-	joinHistory := startHistoryWorkers()
+	if pf := os.Getenv("C45_PPROF"); pf != "" {
+		f, _ := os.Create(pf)
+		pprof.StartCPUProfile(f)
+		defer pprof.StopCPUProfile()
+	}
+	joinHistory := func() map[string]any { return nil }
+	if os.Getenv("C45_NOWORK") == "" {
+		joinHistory = startHistoryWorkers()
+	}
 	prefixes := []string{"g", "gpub", "a", "1", "g1x", "x-_~!", "0", "g9", strings.Repeat("a", 83)}
 
 	// payload universe
@@ -285,44 +296,40 @@ func main() {
 	_ = upto2
 
 	// ---- A. round trip ---------------------------------------------------------------------------------------
-	var amu sync.Mutex
-	var rt int64
+	var rt, again atomic.Int64
 	encs := make([]string, len(prefixes)*len(payloads))
 	r.ParFor(len(prefixes)*len(payloads), func(i int) {
 		p, d := prefixes[i/len(payloads)], payloads[i%len(payloads)]
 		var enc, hrp string
 		var got []byte
 		var err error
-		in := fmt.Sprintf("%s/%x", p, d)
+		in := func() string { return fmt.Sprintf("%s/%x", p, d) } // only built when a failure is reported
 		if rec := vk.Catch(func() { enc, err = bech32.Encode(p, d) }); rec != nil || err != nil {
-			fail("encode-failed", in, fmt.Sprintf("panic=%v err=%v", rec, err))
+			fail("encode-failed", in(), fmt.Sprintf("panic=%v err=%v", rec, err))
 			return
 		}
 		if rec := vk.Catch(func() { hrp, got, err = bech32.Decode(enc) }); rec != nil || err != nil {
-			fail("roundtrip:decode-of-own-encoding-failed", in, fmt.Sprintf("%s: panic=%v err=%v", enc, rec, err))
+			fail("roundtrip:decode-of-own-encoding-failed", in(), fmt.Sprintf("%s: panic=%v err=%v", enc, rec, err))
 			return
 		}
 		if hrp != p || !bytes.Equal(got, d) {
-			fail("roundtrip:differs", in, fmt.Sprintf("%s decoded to %s/%x", enc, hrp, got))
+			fail("roundtrip:differs", in(), fmt.Sprintf("%s decoded to %s/%x", enc, hrp, got))
 		}
 		if want := refEncode5(p, to5(d), 1); want != enc {
-			fail("roundtrip:encoding-differs-from-reference", in, fmt.Sprintf("impl %s reference %s", enc, want))
+			fail("roundtrip:encoding-differs-from-reference", in(), fmt.Sprintf("impl %s reference %s", enc, want))
 		}
 		// D(sibling): the same data under the bech32m checksum constant is NOT a valid bech32 string
 		agree("bech32m-checksum", refEncode5(p, to5(d), 0x2bc830a3), true, nil)
 		r.EvalN(2)
 		r.Distinct("rt:" + enc)
 		encs[i] = enc
-		amu.Lock()
-		rt++
-		amu.Unlock()
+		rt.Add(1)
 	})
-	r.OutcomeN("roundtrip_pairs", rt)
+	r.OutcomeN("roundtrip_pairs", rt.Load())
 	// second decoding of every valid encoding, in the reverse order (the result may not depend on what was decoded before)
-	var again int64
 	r.ParFor(len(encs), func(j int) {
 		i := len(encs) - 1 - j
-		if encs[i] == "" {
+		if encs[i] == "" || os.Getenv("C45_NOREV") != "" {
 			return
 		}
 		p, d := prefixes[i/len(payloads)], payloads[i%len(payloads)]
@@ -335,11 +342,9 @@ func main() {
 			fail("history-dependent:bech32.DecodeAndConvert:valid-string-second-decode-differs(reverse order)", encs[i], fmt.Sprintf("panic=%v err=%v decoded to %s/%x, encoded from %s/%x", rec, err, hrp, got, p, d))
 			return
 		}
-		amu.Lock()
-		again++
-		amu.Unlock()
+		again.Add(1)
 	})
-	r.OutcomeN("valid_encodings_decoded_a_second_time_in_reverse_order", again)
+	r.OutcomeN("valid_encodings_decoded_a_second_time_in_reverse_order", again.Load())
 
 	// base strings for the mutation families
 	var bases []string
@@ -373,7 +378,7 @@ func main() {
 			d3, err3 := crypto.GetFromBech32(s, rh)
 			r.EvalN(2)
 			if err2 != nil || err3 != nil || h2 != rh || !bytes.Equal(d2, rd) || !bytes.Equal(d3, rd) {
-				fail("history-dependent:valid-string-decoded-differently("+ctx+")", s, fmt.Sprintf("DecodeAndConvert: %q %x %v; GetFromBech32: %x %v; reference %q %x", h2, d2, err2, d3, err3, rh, rd))
+				fail("valid-string:DecodeAndConvert/GetFromBech32-disagree-with-reference("+ctx+")", s, fmt.Sprintf("DecodeAndConvert: %q %x %v; GetFromBech32: %x %v; reference %q %x", h2, d2, err2, d3, err3, rh, rd))
 			}
 		}
 		warm("before its variants")
